@@ -387,7 +387,7 @@ def gen_next(rng, live, cfg, prev=None, focus=None):
         bases = rng.sample(cand, min(len(cand), rng.choice([0, 0, 0, 1, 1, 2])))
         return ["new_space", parent, nm, bases]
     if k == "rename_space":
-        return gen_rename_space(rng, live, spaces, path)
+        return gen_rename_space(rng, live, spaces, path, bad=cfg.get("rename_bad", 0.0))
     if k == "new_space":
         nested = rng.random() < 0.35
         parent = rng.choice([p for p in paths if "." not in p] or ["-"]) if nested else "-"
@@ -400,6 +400,15 @@ def gen_next(rng, live, cfg, prev=None, focus=None):
         return ["new_space", parent, nm, bases]
     if k == "del_space":
         return ["del_space", path]
+    if k == "cur_space":
+        # the session's own handle: mostly a NESTED space (a child, a grandchild), so that deleting an ancestor
+        # deletes what the handle denotes
+        nested = [p for p in paths if "." in p]
+        tgt = rng.choice(nested) if nested and rng.random() < 0.7 else path
+        return ["cur_space", tgt, rng.choice(["mx", "mx", "parent"])]
+    if k == "cur_cells":
+        # API use through the session's handle (new_cells through mx.cur_space() / model.cur_space(), mx.defcells)
+        return ["cur_cells", rng.choice(W.CELLS), W.gen_formula(rng, paths), rng.choice(["new_cells", "model", "defcells"])]
     ext = bool(cfg.get("ext"))
     if k == "new_cells":
         free = [n for n in W.CELLS if n not in cells]
@@ -486,11 +495,17 @@ def gen_next(rng, live, cfg, prev=None, focus=None):
     return ["new_cells", path, rng.choice(W.CELLS), W.gen_formula(rng, paths, s)]
 
 
-def gen_rename_space(rng, live, spaces, path, pool=None):
+BAD_NAMES = ["_x", "1a", "for", "a b", "", "x.y", "__d__", "None", "a-b"]      # none of them may ever become a name
+
+
+def gen_rename_space(rng, live, spaces, path, pool=None, bad=0.0):
     """`space.rename(name)`: mostly of a NESTED space, mostly one whose path holds a name twice (the renamed
     component is then not the first of that name) or that gets the name of an ancestor; the new name is free in the
     parent most of the time, sometimes in use there (a sibling space, a cells or a reference of the parent)"""
     paths = [p for p, _ in spaces]
+    if bad and rng.random() < bad:
+        # ... or a name that is no name at all (cfg "rename_bad": the properties that ask for it)
+        return ["rename_space", rng.choice(paths), rng.choice(BAD_NAMES)]
     nested = [p for p in paths if "." in p]
     twice = [p for p in nested if p.rsplit(".", 1)[1] in p.split(".")[:-1]]
     r = rng.random()
@@ -846,6 +861,56 @@ def rename_family():
     return out
 
 
+# ----------------------------------------------------------------------------- scenario family: every naming entry point
+#
+# "Only valid identifiers not starting with an underscore ever become names of user-created spaces or cells" is a
+# statement about EVERY operation that gives or changes a name.  The family offers each name of BAD_NAMES to each of
+# them on a model that has something to lose (batch_api.base_program: inputs, held values, a sub space, a
+# parametrised space with ItemSpaces): creation and renaming of spaces (top-level, nested, one that is a base, a
+# parametrised one) and of cells (defined, overriding), references by attribute and by set_ref (space and model
+# level), references handed to new_space(refs=), new_space(formula=), Space.copy(name=), the module / pandas / csv
+# imports (the name of the space and of the cells), cells named through the current space.  Nothing about "must be
+# refused" is asserted: the property's hooks judge each request (refused: nothing changed; accepted: every name in
+# the model is a valid one).  After the requests: a valid rename of the same objects, everything evaluated.
+
+def naming_family():
+    """[(label, ops)]"""
+    from . import batch_api
+    pre = batch_api.base_program()
+    src = "def {n}(x): return x + 1"
+    out = []
+    for bad in BAD_NAMES:
+        groups = {
+            "spaces": [["new_space", "-", bad, []], ["new_space", "S", bad, []], ["new_space", "-", bad, ["S"]],
+                       ["rename_space", "S", bad], ["rename_space", "S.child", bad], ["rename_space", "Sub.w", bad],
+                       ["rename_space", "P", bad], ["rename_space", "Sub", bad],
+                       ["new_space_obj", "-", bad, [], "def"], ["copy_space", "S", "-", bad], ["copy_space", "S.child", "Sub", bad],
+                       ["rename_space", "S", "S9"], ["rename_space", "S9", bad], ["rename_space", "S9", "S"]],
+            "cells": [["new_cells_src", "S", bad, None], ["new_cells_src", "S", bad, src.format(n="zz")],
+                      ["new_cells_src", "Sub", bad, "lambda x: x"], ["rename_cells", "S", "foo", bad],
+                      ["rename_cells", "S", "total", bad], ["rename_cells", "Sub", "own", bad], ["rename_cells", "P", "h", bad],
+                      ["cur_space", "S.child", "mx"], ["cur_cells", bad, F(0, 1), "new_cells"],
+                      ["rename_cells", "S", "foo", "foo9"], ["rename_cells", "S", "foo9", bad], ["rename_cells", "S", "foo9", "foo"]],
+            "references": [["set_ref", "S", bad, 4], ["set_ref", "Sub", bad, 5, "absolute"], ["set_ref", "S.child", bad, 6, "relative"],
+                           ["set_ref", "P", bad, ["obj", "S.foo"], "absolute"],
+                           ["new_space", "-", "T", ["S"], {bad: 1}], ["new_space", "Sub", "T", [], {"ok1": 1, bad: 2}],
+                           ["new_space", "-", "T2", [], {bad: 1, "ok2": 2}]],
+            "model-level references": [["set_mref", bad, 7], ["set_mref", "g", 8], ["set_mref", bad, 9], ["del_mref", bad]],
+            "imports": [["batch_space_module", "-", bad, [["a", "def"], ["b", "def"]], "import_module", []],
+                        ["batch_space_module", "S", bad, [["a", "def"]], "new_space_from_module", []],
+                        ["batch_space_pandas", "-", bad, ["c1", "c2"], None, "pandas"],
+                        ["batch_space_pandas", "Sub", bad, ["c1", "c2"], None, "csv"],
+                        ["batch_cells_pandas", "S", ["c1", "c2"], ["n1", bad], "pandas"],
+                        ["batch_cells_pandas", "S", ["d1", bad], None, "pandas"]],
+        }
+        for what, reqs in groups.items():
+            if what == "imports" and not isinstance(bad, str):
+                continue
+            ops = [list(o) for o in pre] + [list(o) for o in reqs] + [["evalall"]]
+            out.append(("the name %r offered to every entry point for %s" % (bad, what), ops))
+    return out
+
+
 def formula_object_family():
     """[(label, ops)]: one program per kind of formula OBJECT (formula_objs.KINDS).  A base A with a cells f that
     holds an input and a caller g, a sub space B deriving both (B.f holds an input of its own), a parametrised
@@ -1022,7 +1087,7 @@ def replay_struct(payload, out, hooks_factory, cfg):
         run_one(ops_from_json(h), out, collections.Counter(), hooks_factory(), cfg)
 
 
-EDIT_KINDS = ("new_cells_src", "set_param", "new_space", "del_space", "rename_space", "new_cells", "set_formula", "set_cached", "del_cells",
+EDIT_KINDS = ("cur_space", "cur_cells", "new_cells_src", "set_param", "new_space", "del_space", "rename_space", "new_cells", "set_formula", "set_cached", "del_cells",
               "rename_cells", "add_bases", "remove_bases", "set_ref", "del_ref", "set_mref", "del_mref",
               "set_value", "clear", "clear_all", "clear_at", "allow_none",
               "new_cells_obj", "set_formula_obj", "set_param_obj", "new_space_obj",
